@@ -474,7 +474,7 @@ func runC05TCP(c C05E2E, info *kit.Info) *kit.Finding {
 		info.Skipped = err.Error()
 		return nil
 	}
-	cl, err := net.Dial("tcp", front.Addr)
+	cl, err := kit.DialTCP(front.Addr, 5*time.Second)
 	if err != nil {
 		sinks.close()
 		front.Close(time.Second)
